@@ -1,14 +1,18 @@
-"""Thorough tier: self-validation of the checker for one property (mutants must be killed, benign
-twins must stay silent).  Filled in by selftest/corpus.py."""
+"""Thorough tier: self-validation of the checker for one property: its mutants of the current sources must be
+reported, its benign twins must stay silent (selftest/corpus.py, selftest/runner.py)."""
+import os
+import sys
+import time
+
+
 def validate(prop, root):
+    sys.path.insert(0, os.path.dirname(os.path.dirname(os.path.abspath(__file__))))
+    t0 = time.time()
     try:
         from selftest import runner
-    except Exception:
-        import sys, os
-        sys.path.insert(0, os.path.dirname(os.path.dirname(os.path.abspath(__file__))))
-        try:
-            from selftest import runner
-        except Exception:
-            print('[%s] self-validation corpus not available' % prop)
-            return 0
-    return runner.validate(prop, root)
+    except Exception as e:
+        print('[%s] self-validation corpus not available: %s' % (prop, e))
+        return 0, {'available': False}
+    code, summary = runner.validate(prop, root)
+    summary['wall_s'] = round(time.time() - t0, 3)
+    return code, summary
